@@ -41,7 +41,7 @@ type seqEngine struct{ retainMode bool }
 var bigValue []byte
 
 func seqWeights(prop string, rng *rand.Rand) map[string]int {
-	w := map[string]int{"put": 40, "del": 15, "get": 8, "geta": 4, "has": 4, "count": 3, "items": 2, "sync": 2, "compact": 3, "close": 0, "filesize": 1}
+	w := map[string]int{"put": 40, "del": 15, "get": 8, "geta": 4, "has": 4, "count": 3, "items": 2, "sync": 2, "compact": 3, "close": 0, "filesize": 1, "itemsc": 1}
 	switch rng.Intn(4) {
 	case 0: // delete heavy
 		w["del"] = 40
@@ -73,7 +73,7 @@ func (se seqEngine) Generate(rng *rand.Rand, prop string, thorough bool) *Plan {
 		p.Cfg = cfg
 		p.Engine = "retain"
 		g.Sessions = true
-		g.Weights = map[string]int{"put": 30, "del": 10, "get": 25, "geta": 12, "has": 2, "count": 1, "items": 6, "sync": 2, "compact": 8, "close": 4, "filesize": 0}
+		g.Weights = map[string]int{"put": 30, "del": 10, "get": 25, "geta": 12, "has": 2, "count": 1, "items": 6, "sync": 2, "compact": 8, "close": 4, "filesize": 0, "itemsc": 4}
 	}
 	if thorough {
 		g.MaxOps = 400
@@ -132,6 +132,24 @@ func (se seqEngine) Generate(rng *rand.Rand, prop string, thorough bool) *Plan {
 	cfg.NKeys = len(keys)
 	p.SetKeys(keys)
 	ops := append(pre, GenSeqOps(rng, cfg, g, &id)...)
+	if prop == "C02" && rng.Intn(4) == 0 && len(ops) > 4 {
+		// drain: at some point every key is deleted, the empty database is closed and reopened, and life goes on
+		// (an index that grew and was emptied keeps its size and shape across the restart)
+		pos := rng.Intn(len(ops))
+		for !openAt(ops, pos) && pos > 0 {
+			pos--
+		}
+		var drain []Op
+		for k := 0; k < cfg.NKeys; k++ {
+			drain = append(drain, Op{K: "del", Key: k})
+		}
+		drain = append(drain, Op{K: "count"}, Op{K: "close"}, Op{K: "open"})
+		for _, k := range rng.Perm(cfg.NKeys) {
+			id++
+			drain = append(drain, Op{K: "put", Key: k, ID: id, Size: []int{0, 7, 16}[rng.Intn(3)]})
+		}
+		ops = append(ops[:pos:pos], append(drain, ops[pos:]...)...)
+	}
 	if prop == "C02" && rng.Intn(4) == 0 {
 		// a write to a metadata file fails (ENOSPC) during one Close: that Close must not report success
 		// unless everything is in place; after a reported failure the next Open recovers
@@ -262,7 +280,7 @@ func (se seqEngine) Execute(p *Plan) *RunResult {
 			continue
 		}
 		switch op.K {
-		case "put", "del", "compact":
+		case "put", "del", "compact", "itemsc":
 			mutatedThisSession = true
 		}
 		var v *Violation
